@@ -4,6 +4,7 @@
    correspondence only. *)
 From Coq Require Import String List ZArith QArith Qcanon Bool.
 From NV Require Import Dim.Model Dim.Infer Dim.Sem Dim.Proofs Dim.AcceptProofs Dim.CanonProofs.
+From NV Require Import Dim.Run Dim.RunTreeProofs Dim.CompleteProofs.
 Import ListNotations.
 Open Scope string_scope.
 
@@ -47,17 +48,18 @@ Theorem C02_whole_input_accepted :
 Proof. exact @whole_input_accepted. Qed.
 Print Assumptions C02_whole_input_accepted.
 
-(* Accept-soundness for the arithmetic core (literals incl. the polymorphic 0, identifiers and
-   units, unary operators, + - -> * / ^const, comparisons, == !=, && ||, if, calls of functions
-   everything except list literals) in well-formed environments (env_ok: monomorphic entries have a
+(* Accept-soundness for every expression form of the model (literals incl. the polymorphic 0,
+   identifiers and units, unary operators, + - -> * / ^const, comparisons, == !=, && ||, if, calls
+   of functions, list literals: empty, with a closed first element type, with an open one)
+   in well-formed environments (env_ok: monomorphic entries have a
    meaning; generalised, quantified entries — generic library and user functions, polymorphic
    values — have a meaning under every instantiation of their bound variables that respects their
    Dim bounds; instantiation of quantified schemes with fresh variables is covered): if the elaborator accepts e with type t and the solver solves the
    generated constraints with sigma, then in EVERY valuation that is an instance of sigma, gives
    the Dim-bounded variables dimensions and is well-sorted, e has — by the declarative dimensional
    analysis has_ty of Dim/Sem.v — exactly the dimension/type that t denotes, which is also what
-   the reported type `sigma t` denotes.  (Polymorphic environment entries and list literals are
-   outside this theorem; that every ground instance of the reported type arises from such a
+   the reported type `sigma t` denotes.  (Outside this theorem: function DEFINITIONS — that the
+   generalised scheme a definition adds to the environment satisfies env_ok again; that every ground instance of the reported type arises from such a
    valuation — idempotence of sigma — is not proved.) *)
 Theorem C02_accept_sound :
   forall (e : expr) (s : tc) (t : ty) (ns : list ty) (s1 : tc) (sigma : subst) (dts : list var),
@@ -94,6 +96,41 @@ Theorem C02_accept_sound_annotated :
                         tden th ta = Some b -> steq a b.
 Proof. exact accept_sound_inner. Qed.
 Print Assumptions C02_accept_sound_annotated.
+
+(* "Exactly": on the monomorphic arithmetic fragment the checker DECIDES dimensional consistency.
+   danalyse (Dim/CompleteProofs.v) is ordinary dimensional analysis of a closed expression: names
+   carry the dimension of the environment, + - -> need equal dimensions, * / ^ combine exponents,
+   a dimensionful base needs a constant exponent and a dimensionless base a dimensionless exponent.
+   Over an environment that holds exactly the names of g as monomorphic, variable-free dimension
+   types (env_exact), for every expression of the fragment `arith` (non-zero literals, names,
+   unary minus, + - -> * / ^): if dimensional analysis succeeds with d the elaborator accepts with
+   exactly the type d, and if it fails the elaborator rejects.  Hence a rejected expression is
+   dimensionally inconsistent (reject-complete) and an accepted one consistent with the inferred
+   dimension (accept-exact).  PARTIAL: no polymorphic zero, comparisons, conditionals, calls,
+   generic entries, lists — there completeness would need principal types of the solver. *)
+Theorem C02_decides_partial :
+  forall (gs : env) (g : string -> option dtype), env_exact gs g ->
+  forall e, arith e -> forall s, tc_env s = gs ->
+    match danalyse g e with
+    | Some d => exists ns s1, elab_expr e s = Ok (TDim d, ns, s1) /\ tc_env s1 = gs /\ novar d = true
+    | None => exists er, elab_expr e s = Err er
+    end.
+Proof. exact accepts_iff. Qed.
+Print Assumptions C02_decides_partial.
+
+Theorem C02_reject_complete_partial :
+  forall (gs : env) (g : string -> option dtype), env_exact gs g ->
+  forall e, arith e -> forall s er, tc_env s = gs ->
+    elab_expr e s = Err er -> danalyse g e = None.
+Proof. exact reject_complete. Qed.
+Print Assumptions C02_reject_complete_partial.
+
+Theorem C02_accept_exact_partial :
+  forall (gs : env) (g : string -> option dtype), env_exact gs g ->
+  forall e, arith e -> forall s t ns s1, tc_env s = gs ->
+    elab_expr e s = Ok (t, ns, s1) -> exists d, danalyse g e = Some d /\ t = TDim d.
+Proof. exact accept_exact. Qed.
+Print Assumptions C02_accept_exact_partial.
 
 (* The representation invariant behind "the reported type equals the dimension": every factor list
    produced by DType::try_canonicalize (hence by multiply / divide / power / from_factors) is
@@ -178,6 +215,16 @@ Proof.
     destruct (String.eqb x "second"); [intro H; inversion H; subst; split; [constructor|intros; unfold tdef; simpl; eauto]|discriminate].
 Qed.
 
+(* ... and the list rule is exercised: `[meter, 2 meter]` is accepted with type List<Length>, while
+   `[meter, second]` is rejected by the very loop the proof is about *)
+Example C02_accept_list_nonvacuous :
+  core (EList [EUnit "meter"; EBin OMul (EScalar (qc 2)) (EUnit "meter")])
+  /\ (match elab_expr (EList [EUnit "meter"; EBin OMul (EScalar (qc 2)) (EUnit "meter")]) ex_env0 with
+      | Ok (t, _, _) => ty_eqb t (TList (TDim [(FBase "Length", Qc1)])) | Err _ => false end) = true
+  /\ (match elab_expr (EList [EUnit "meter"; EUnit "second"]) ex_env0 with
+      | Err EIncompatibleTypesInList => true | _ => false end) = true.
+Proof. split; [repeat constructor|]. split; vm_compute; reflexivity. Qed.
+
 (* env_ok is satisfiable for a generic entry: sqrt-like  forall D: Dim. (D^2) -> D *)
 Example C02_env_ok_polymorphic :
   forall th : valuation,
@@ -189,4 +236,29 @@ Proof.
   intros vsem Hl BH. destruct vsem as [|v0 [|? ?]]; try discriminate.
   destruct (BH (TVar (VQuant 0)) (or_introl eq_refl)) as [d Hd]. simpl in Hd. inversion Hd; subst.
   split; [repeat constructor|]; unfold tdef; simpl; eauto.
+Qed.
+
+(* the decision theorem is not vacuous: the two-unit environment is exact for its run-time
+   reading, `meter / second ^ 2` analyses to Length / Time^2, `meter + second` and
+   `meter ^ second` do not analyse (and are rejected, by the theorem) *)
+Definition exd_env : env :=
+  [("meter", IdNormal (Quantified 0 (TDim [(FBase "Length", Qc1)]) []));
+   ("second", IdNormal (Quantified 0 (TDim [(FBase "Time", Qc1)]) []))].
+Definition exd_g (x : string) : option dtype :=
+  if String.eqb x "meter" then Some [(FBase "Length", Qc1)]
+  else if String.eqb x "second" then Some [(FBase "Time", Qc1)] else None.
+Example C02_decides_nonvacuous :
+  env_exact exd_env exd_g
+  /\ (match danalyse exd_g (EBin ODiv (EUnit "meter") (EBin OPow (EUnit "second") (EScalar (qc 2)))) with
+      | Some d => dtype_eqb d [(FBase "Length", Qc1); (FBase "Time", qc (-2))] | None => false end) = true
+  /\ danalyse exd_g (EBin OAdd (EUnit "meter") (EUnit "second")) = None
+  /\ danalyse exd_g (EBin OPow (EUnit "meter") (EUnit "second")) = None
+  /\ arith (EBin OAdd (EUnit "meter") (EUnit "second")).
+Proof.
+  split.
+  - intro x. unfold exd_env, exd_g. simpl.
+    destruct (String.eqb x "meter"); [repeat split; reflexivity|].
+    destruct (String.eqb x "second"); [repeat split; reflexivity|reflexivity].
+  - split; [vm_compute; reflexivity|]. split; [vm_compute; reflexivity|]. split; [vm_compute; reflexivity|].
+    apply ABin; [auto 10|apply AUnit|apply AUnit].
 Qed.
